@@ -13,6 +13,26 @@ from hypothesis import strategies as st
 from vf.common import Check, Violation, require
 from vf.strategies import _pyproj, affines, crs_tags, mk_affine, mk_crs_spec
 
+# CRSs without an authority code that resemble EPSG ones (an EPSG "best guess" exists at pyproj's default
+# confidence, but datum/ellipsoid differ): the file must describe THIS CRS, not the look-alike
+CUSTOM_CRS = {
+    "utm33grs80": "+proj=utm +zone=33 +ellps=GRS80 +units=m +no_defs +type=crs",
+    "aea_grs80": "+proj=aea +lat_0=0 +lon_0=132 +lat_1=-18 +lat_2=-36 +x_0=0 +y_0=0 +ellps=GRS80 +units=m +no_defs +type=crs",
+    "laea_sphere": "+proj=laea +lat_0=52 +lon_0=10 +x_0=4321000 +y_0=3210000 +R=6371000 +units=m +no_defs +type=crs",
+    "tmerc_wgs84": "+proj=tmerc +lat_0=0 +lon_0=15 +k=0.9996 +x_0=500000 +y_0=0 +ellps=WGS84 +units=m +no_defs +type=crs",
+}
+
+
+def _crs_spec(tag):
+    if tag["label"].startswith("custom:"):
+        ps = CUSTOM_CRS[tag["label"].split(":", 1)[1]]
+        if tag["spell"] == "wkt2":
+            from pyproj import CRS as P
+
+            return P.from_user_input(ps).to_wkt()
+        return ps
+    return mk_crs_spec(tag)
+
 RULE = (
     "Hypothesis cases: image shape 1..700 per side (tiny 1..24, small 25..300, 1-2 pixel strips up to 700, sides in "
     "{511,512,513} around the 512 default-overview rule, large 514..700), layout YX / band-first / band-last with "
@@ -153,7 +173,7 @@ def build_input(img: dict):
     nb = img["nb"]
     layout = img["layout"]
     A = mk_affine(img["affine"])
-    gbox = GeoBox((ny, nx), A, mk_crs_spec(img["crs"]))
+    gbox = GeoBox((ny, nx), A, _crs_spec(img["crs"]))
     syx = mk_pixels(nb, ny, nx, img["dtype"], img["seed"])
     attrs = {}
     nd = img["nodata"]
@@ -333,7 +353,13 @@ def verify(data: bytes, *, syx, transform, label, nodata, blocksize, ovr_block, 
             require(got_t == tuple(transform), "%stransform read back %r, array has %r", what, got_t, tuple(transform))
             crs = f.crs
             require(crs is not None, "%sno CRS in file, expected %s", what, label)
-            if label != "sinu":
+            if label.startswith("custom:"):
+                from pyproj import CRS as P
+
+                want_crs = P.from_user_input(CUSTOM_CRS[label.split(":", 1)[1]])
+                require(P.from_wkt(crs.to_wkt()).equals(want_crs, ignore_axis_order=True),
+                        "%sCRS in the file (%s) is not the authority-less CRS that was written (%s)", what, (crs.to_string() or "")[:60], label)
+            elif label != "sinu":
                 require(crs.to_epsg() == int(label), "%sCRS reads back as EPSG:%r, expected EPSG:%s", what, crs.to_epsg(), label)
             else:
                 from pyproj import CRS as P
@@ -489,6 +515,8 @@ def s_img(draw, kinds):
     rot = False if (1 in (ny, nx) and draw(st.integers(0, 5)) > 0) else None
     coeffs, fam, klass = draw(affines(rotated=rot))
     crs = draw(crs_tags(allow_none=False))
+    if draw(st.integers(0, 6)) == 0:
+        crs = {"label": "custom:" + draw(st.sampled_from(sorted(CUSTOM_CRS))), "spell": draw(st.sampled_from(["proj", "wkt2"]))}
     return {
         "kind": kind,
         "shape": [ny, nx],
